@@ -24,7 +24,8 @@ ASSUMPTIONS = [
 ]
 GATES = ["events_checked", "mode0", "mode1", "mode2", "handler_calls_checked", "raise_resumed",
          "pos:crc", "pos:payload", "pos:straddle", "backend:buffered", "backend:pipe", "backend:makefile",
-         "backend:bytesio", "backend:socket", "raise_via_next", "raise_via_read"]
+         "backend:bytesio", "backend:socket", "raise_via_next", "raise_via_read", "raise_via_held_iterator",
+         "long_damaged_runs"]
 
 
 def make_frames(rng, n):
@@ -266,6 +267,22 @@ def run(ctx):
             mode, handler = combos[b % 6]
             run_case(ctx, frames, {i: [b]}, mode, handler)
         ctx.hit("position_sweeps")
+    for it in range(ctx.n(2, 30)):
+        mode, handler = combos[(it + ctx.worker) % 6]
+        long_run_case(ctx, rng, mode, handler)
+
+
+def long_run_case(ctx, rng, mode, handler):
+    """More than a thousand damaged frames in a row (a noisy link), good frames before and after."""
+    from vf import refcrc
+
+    small = [refcrc.frame(streams.rand_unknown_payload(rng, rng.randint(2, 5))) for _ in range(rng.randint(1100, 1400))]
+    lead = make_frames(rng, 2)
+    tail = make_frames(rng, 3)
+    frames = lead + small + tail
+    damage = {i: [24 + rng.randrange((len(frames[i]) - 3) * 8)] for i in range(len(lead), len(lead) + len(small))}
+    run_case(ctx, frames, damage, mode, handler, "bytesio")
+    ctx.hit("long_damaged_runs")
 
 
 def replay(ctx, p):
